@@ -227,4 +227,23 @@ def extAddr (g : Grp) (addr : Nat → Nat) (allowNone : Bool) (r : Val) : Option
   | none => if allowNone then some 0 else none
   | some i => (idx2uid g i).map addr
 
+/-! ## unique mandatory `IdxParam` (`IdxParam.add`, e.g. `TGOV1.syn`) -/
+
+inductive AddRes where
+  | ok | dup | missing
+  deriving DecidableEq, Repr
+
+/-- `dup` = `IndexError` (duplicate value), `missing` = `ValueError` (mandatory); the value list is
+unchanged by a rejected add -/
+def uniqueAdd (vs : List Idx) : Val → List Idx × AddRes
+  | none => (vs, .missing)
+  | some i => if i ∈ vs then (vs, .dup) else (vs ++ [i], .ok)
+
+def uniqueAdds (vs : List Idx) : List Val → List Idx × List AddRes
+  | [] => (vs, [])
+  | v :: t =>
+    let r := uniqueAdd vs v
+    let r' := uniqueAdds r.1 t
+    (r'.1, r.2 :: r'.2)
+
 end Andes.Registry
